@@ -460,11 +460,49 @@ pub fn run(ctx: &Ctx) -> Vec<Eng> {
             }
         });
     }
+    let (ph, maxp) = if ctx.thorough { (64, 5) } else { (40, 4) };
+    let mut e3b = Eng::new(
+        "c10-periodic",
+        "periodic histories: every primitive word of length <= p over {P(1 s), P(0.25 s), P(2 s), N, E1} repeated to H events (values cycle through {0,1,-2,3}), and every history differing from one of these in exactly one position; 5 streams (long runs with many resets in a regular pattern)",
+        &format!("H={} p<={} => {} histories x 5 streams", ph, maxp, periodic_count(5, maxp, ph)),
+    );
+    for kind in 0..5 {
+        par_periodic(&mut e3b, 5, maxp, ph, budget, |seq, e| {
+            let h: Vec<Ev> = seq
+                .iter()
+                .enumerate()
+                .map(|(i, &s)| match s {
+                    0 => Ev::P(S, cyc[i % 4]),
+                    1 => Ev::P(S / 4, cyc[i % 4]),
+                    2 => Ev::P(2 * S, cyc[i % 4]),
+                    3 => Ev::N(S),
+                    _ => Ev::Er(S, 1),
+                })
+                .collect();
+            e.sample(|| format!("{} [{}]", KINDS[kind], show(&h)));
+            check_history(kind, &h, natural_unit(kind), e, false)
+        });
+        par_long(&mut e3b, 5, 2, &LONG_LENS, budget, |seq, e| {
+            let h: Vec<Ev> = seq
+                .iter()
+                .enumerate()
+                .map(|(i, &s)| match s {
+                    0 => Ev::P(S, cyc[i % 4]),
+                    1 => Ev::P(S / 4, cyc[i % 4]),
+                    2 => Ev::P(2 * S, cyc[i % 4]),
+                    3 => Ev::N(S),
+                    _ => Ev::Er(S, 1),
+                })
+                .collect();
+            check_history(kind, &h, natural_unit(kind), e, false)
+        });
+    }
+    e3b.bounds.push_str(&format!("; plus long runs: every primitive word of length <= 2 repeated to 255..257 and 511..513 events followed by one event of each kind ({} histories x 5 streams)", long_count(5, 2, &LONG_LENS)));
     let mut e4 = Eng::new(
         "c10-units",
         "49 input units (7x7 grid) x 4 short histories x 5 streams: output unit of integral/derivative = input unit times/over seconds; to-state converters panic exactly when a present sample is wrongly dimensioned (dimension-checked build); non-trivial = unit differs from the stream's natural one",
         "49 x 4 x 5",
     );
     units(&mut e4);
-    vec![e1, e2, e3, e4]
+    vec![e1, e2, e3, e3b, e4]
 }
